@@ -5,10 +5,18 @@ regenerated from the live package and its `decide` obligations are in Generated/
 
 `H` ranges over *all* class hierarchies (any classes, any linearisations, any `__dict__`s),
 `c` over all receiver classes, `captured` over all function objects: nothing below is proved
-by enumeration.  "Which function object runs" is the whole observable of the wrapper: both of
-its branches pass the positional and keyword arguments on unchanged.
+by enumeration.  "Which function object runs" is the whole observable of the dispatch: both
+branches of the wrapper pass the positional and keyword arguments on unchanged.
+
+Round 3 (model: Model/DeprecWorld.lean): the wrappers as transformers of the process state
+(`World σ`: warning filters, default action, registries, delivered warnings and `rest : σ` =
+everything else), for ANY behaviour `sem` of the function objects: the old name is the warning
+followed by exactly the call of the new name, and the warning touches nothing but the warning
+log (`alias_is_warning_then_new`, `warn_touches_only_the_warning_log`, …, `kw_is_warnings_then_call`);
+overrides at any depth of the hierarchy (`override_anywhere_honoured`).
 -/
 import Model.Dispatch
+import Model.DeprecWorld
 import Proofs.Dispatch
 
 open Disp
@@ -166,6 +174,166 @@ theorem table_sound (H : Hier) (al : List Alias) (bad : List (ClassId × NameId)
     have := List.all_eq_true.mp hall c hc
     simp only [hexp, Bool.not_true, Bool.false_or, slotOK, hm, hs] at this
     exact dynamic_sound H c.id a.newName a.captured this
+
+/-! ### round 3: overrides at any depth; the state of the process around the call -/
+
+/-- **Override at any level of a hierarchy of any depth** (intermediate class, leaf, several of
+them): whatever stands in the receiver's mro, if `k` is the first class of it that defines the new
+name (the classes `pre` before it — the receiver's own class included when `pre ≠ []` — do not),
+the alias runs `k`'s implementation, which is what `receiver.new_name` runs. -/
+theorem override_anywhere_honoured (H : Hier) (c : ClassId) (pre post : List ClassId) (k : ClassId)
+    (newName : NameId) (captured own : ImplId) (hmro : mroOf H c = pre ++ k :: post)
+    (hpre : ∀ p ∈ pre, classGet H p newName = none) (hown : classGet H k newName = some own)
+    (hf : foundInMro H c newName captured = true) :
+    aliasCall H c newName captured = some own ∧ callNew H c newName = some own := by
+  have hr : resolve H c newName = some own :=
+    (lookupAlong_eq_some H newName own _).mpr ⟨pre, k, post, hmro, hpre, hown⟩
+  exact ⟨by simp [aliasCall, hf, hr], hr⟩
+
+/-- three levels, the redefinition sits in the intermediate class: the code's wrapper follows it,
+a wrapper looking only at the receiver's own class runs the base implementation -/
+def H₃ : Hier :=
+  [⟨0, [0], [(1, 10), (2, 20)]⟩,          -- Base: get_value, alias getValue
+   ⟨1, [1, 0], [(1, 11)]⟩,                 -- Mid(Base) redefines get_value
+   ⟨2, [2, 1, 0], []⟩,                     -- Leaf(Mid) defines nothing
+   ⟨3, [3, 2, 1, 0], [(1, 13)]⟩]           -- Leaf2(Leaf) redefines it again
+
+theorem shallow_lookup_is_wrong_on_inherited_override :
+    aliasCall H₃ 2 1 10 = some 11 ∧ callNew H₃ 2 1 = some 11 ∧ aliasShallow H₃ 2 1 10 = some 10 := by
+  decide
+
+example : aliasCall H₃ 3 1 10 = some 13 ∧ callNew H₃ 3 1 = some 13 := by decide
+example : (override_anywhere_honoured H₃ 2 [2] [0] 1 1 10 11 (by decide) (by decide) (by decide)
+    (by decide)).1 = (by decide : aliasCall H₃ 2 1 10 = some 11) := rfl
+
+/-- **Calling the old name = emitting the warning, then exactly the call of the new name** on the
+state the warning leaves, for ANY behaviour `sem` of the function objects and ANY state of the
+process — result, exception and final state (filters, registries, everything in `rest`) included. -/
+theorem alias_is_warning_then_new {σ ρ α} (sem : ImplId → α → World σ → Res σ ρ) (H : Hier)
+    (c : ClassId) (newName : NameId) (captured : ImplId) (msg : MsgId) (args : α) (w : World σ)
+    (h : foundInMro H c newName captured = true) :
+    runAlias false sem H c newName captured msg args w =
+      match warn w msg with
+      | (true, w') => .raised (.deprecationWarning msg) w'
+      | (false, w') => runNew sem H c newName args w' := by
+  have hd := (dynamic_sound H c newName captured h).1
+  unfold runAlias runNew
+  rw [hd]
+  simp only [Bool.false_eq_true, if_false]
+  rcases hw : warn w msg with ⟨b, w'⟩
+  cases b <;> simp only []
+
+/-- **The warning adds nothing but the warning**: `warnings.warn` leaves the filters, the default
+action and all the rest of the process as they were; it delivers at most this one warning and
+records at most this one key. -/
+theorem warn_touches_only_the_warning_log {σ} (w : World σ) (m : MsgId) :
+    (warn w m).2.filters = w.filters ∧ (warn w m).2.defaultAction = w.defaultAction ∧
+    (warn w m).2.rest = w.rest ∧
+    ((warn w m).2.shown = w.shown ∨ (warn w m).2.shown = w.shown ++ [m]) ∧
+    ((warn w m).2.registry = w.registry ∨ (warn w m).2.registry = m :: w.registry) := by
+  unfold warn
+  cases firstAction w.filters w.defaultAction <;> simp <;> split <;> simp
+
+/-- a user's `ignore` setting is respected: no exception, nothing shown, nothing recorded … -/
+theorem warn_ignored {σ} (w : World σ) (m : MsgId) (h : firstAction w.filters w.defaultAction = .ignore) :
+    warn w m = (false, w) := by
+  simp [warn, h]
+
+/-- … and a user's `error` setting turns the warning into the exception before anything runs -/
+theorem warn_error {σ} (w : World σ) (m : MsgId) (h : firstAction w.filters w.defaultAction = .error) :
+    warn w m = (true, w) := by
+  simp [warn, h]
+
+/-- under an `ignore` filter the old name IS the new name: same result, same final state -/
+theorem alias_under_ignore_is_new {σ ρ α} (sem : ImplId → α → World σ → Res σ ρ) (H : Hier)
+    (c : ClassId) (newName : NameId) (captured : ImplId) (msg : MsgId) (args : α) (w : World σ)
+    (h : foundInMro H c newName captured = true)
+    (hi : firstAction w.filters w.defaultAction = .ignore) :
+    runAlias false sem H c newName captured msg args w = runNew sem H c newName args w := by
+  rw [alias_is_warning_then_new sem H c newName captured msg args w h, warn_ignored w msg hi]
+
+/-- under an `error` filter nothing runs and nothing changes -/
+theorem alias_under_error_raises {σ ρ α} (sem : ImplId → α → World σ → Res σ ρ) (H : Hier)
+    (c : ClassId) (newName : NameId) (captured : ImplId) (msg : MsgId) (args : α) (w : World σ)
+    (he : firstAction w.filters w.defaultAction = .error) :
+    runAlias (ρ := ρ) false sem H c newName captured msg args w = .raised (.deprecationWarning msg) w := by
+  simp [runAlias, warn_error w msg he]
+
+/-- the `RAISE_EXCEPTION` switch: nothing runs, nothing is emitted, nothing changes -/
+theorem alias_raise_switch {σ ρ α} (sem : ImplId → α → World σ → Res σ ρ) (H : Hier)
+    (c : ClassId) (newName : NameId) (captured : ImplId) (msg : MsgId) (args : α) (w : World σ) :
+    runAlias (ρ := ρ) true sem H c newName captured msg args w = .raised .biogemeDeprecated w := by
+  simp [runAlias]
+
+/-- several warnings (the keyword wrapper): filters, default action and the rest untouched -/
+theorem warnMany_touches_only_the_warning_log {σ} (ms : List MsgId) : ∀ (w : World σ),
+    (warnMany w ms).2.filters = w.filters ∧ (warnMany w ms).2.defaultAction = w.defaultAction ∧
+    (warnMany w ms).2.rest = w.rest := by
+  induction ms with
+  | nil => intro w; simp [warnMany]
+  | cons m t ih =>
+    intro w
+    have h1 := warn_touches_only_the_warning_log w m
+    unfold warnMany
+    rcases hw : warn w m with ⟨b, w'⟩
+    rw [hw] at h1
+    cases b
+    · simp only []
+      have := ih w'
+      exact ⟨this.1.trans h1.1, this.2.1.trans h1.2.1, this.2.2.trans h1.2.2.1⟩
+    · exact ⟨h1.1, h1.2.1, h1.2.2.1⟩
+
+/-- **Obsolete keywords add nothing but their warnings**: the decorated function receives the
+renamed keyword arguments (`rename_old_equals_new`) in a process whose filters, default action and
+remaining state are those before the call; when a warning is turned into an exception the function
+does not run. -/
+theorem kw_is_warnings_then_call {σ ρ V : Type} (m : KwMap) (msgOf : NameId → MsgId)
+    (f : List (NameId × V) → World σ → Res σ ρ) (kw : List (NameId × V)) (w : World σ) :
+    ∃ w', w'.filters = w.filters ∧ w'.defaultAction = w.defaultAction ∧ w'.rest = w.rest ∧
+      (runKw m msgOf f kw w = f (renameKwargs m kw).1 w' ∨
+        ∃ bad, runKw m msgOf f kw w = .raised (.deprecationWarning bad) w') := by
+  have h := warnMany_touches_only_the_warning_log ((obsoleteKeys m kw).map msgOf) w
+  unfold runKw
+  rcases hw : warnMany w ((obsoleteKeys m kw).map msgOf) with ⟨b, w'⟩
+  rw [hw] at h
+  refine ⟨w', h.1, h.2.1, h.2.2, ?_⟩
+  cases b with
+  | none => exact Or.inl rfl
+  | some bad => exact Or.inr ⟨bad, rfl⟩
+
+/-- calls written with current keywords only emit nothing at all -/
+theorem kw_current_names_silent {σ ρ V : Type} (m : KwMap) (msgOf : NameId → MsgId)
+    (f : List (NameId × V) → World σ → Res σ ρ) (kw : List (NameId × V)) (w : World σ)
+    (hnot : ∀ p ∈ kw, mapGet m p.1 = none) (hn : (kw.map (·.1)).Nodup) :
+    runKw m msgOf f kw w = f kw w := by
+  have hk : obsoleteKeys m kw = [] := by
+    induction kw with
+    | nil => rfl
+    | cons p t ih =>
+      obtain ⟨k, v⟩ := p
+      have := hnot (k, v) List.mem_cons_self
+      simp only at this
+      simp only [obsoleteKeys, this]
+      exact ih (fun q hq => hnot q (List.mem_cons_of_mem _ hq)) (List.nodup_cons.mp hn).2
+  simp [runKw, hk, warnMany, rename_new_is_identity m kw hnot hn]
+
+/-- a user who silenced DeprecationWarning, and the state before the call -/
+def w₀ : World Nat := ⟨[⟨.ignore, true⟩], .default, [], [], 0⟩
+
+/-- **A warning helper that forces the display is observable** (the negation of "adds nothing but
+the warning" for that shape): the filter list is changed and the user's `ignore` is overridden. -/
+theorem forced_display_is_observable :
+    (warn w₀ 5).2.filters = w₀.filters ∧ (warn w₀ 5).2.shown = [] ∧
+    (warnForced w₀ 5).2.filters ≠ w₀.filters ∧ (warnForced w₀ 5).2.shown = [5] := by
+  decide
+
+example : firstAction w₀.filters w₀.defaultAction = .ignore := by decide
+example : firstAction [⟨.ignore, false⟩, ⟨.error, true⟩] .default = .error := by decide
+example : (warn (⟨[], .default, [], [], 0⟩ : World Nat) 5).2.shown = [5] ∧
+    (warn (warn (⟨[], .default, [], [], 0⟩ : World Nat) 5).2 5).2.shown = [5] ∧
+    (warn (warn (⟨[⟨.always, true⟩], .default, [], [], 0⟩ : World Nat) 5).2 5).2.shown = [5, 5] := by decide
+example : obsoleteKeys [(7, some 8), (9, none)] [(7, "a"), (3, "b"), (9, "c")] = [7, 9] := by decide
+example : foundInMro H₃ 2 1 10 = true := by decide
 
 /-! ### non-vacuity: a base class with the alias, a subclass overriding the replacement, a
 sibling that does not, and a class where the replacement was rebound after the capture -/
